@@ -61,7 +61,10 @@ class SIODetails(object):
             raise SarpyIOError('Path {} is not a file'.format(file_name))
 
         with open(file_name, 'rb') as fi:
-            self._magic_number = struct.unpack(">I", fi.read(4))[0]
+            magic_bytes = fi.read(4)
+            if len(magic_bytes) != 4:
+                raise SarpyIOError('File {} is too short to be an SIO file.'.format(file_name))
+            self._magic_number = struct.unpack(">I", magic_bytes)[0]
             endian = self.ENDIAN.get(self._magic_number, None)
             if endian is None:
                 raise SarpyIOError(
